@@ -191,6 +191,15 @@ class ListField(Field):
         if not self.field or isinstance(self.field, AnyField):
             return value
 
+        if (
+            isinstance(value, ListProxy)
+            and value.list_field is self
+            and value.cfg is cfg
+        ):
+            # already the validated list of this field in this configuration (e.g. the one built
+            # while loading): keep it, its items compute their position from it
+            return value
+
         proxy = ListProxy(cfg, self, value)
         return proxy
 
